@@ -37,7 +37,7 @@ pub enum Value {
     Shm(usize, IpcSharedMemory),
     EShm,
     /// serialisation program nodes (C14): a nested send performed while being serialised, and a failure
-    Nested(IpcSender<Dyn>, RefCell<Option<Box<Value>>>, RefCell<Option<bool>>),
+    Nested(IpcSender<Dyn>, RefCell<Option<Box<Value>>>, std::rc::Rc<RefCell<Vec<bool>>>),
     Fail,
 }
 
@@ -99,7 +99,7 @@ impl Serialize for Value {
             Value::Nested(tx, inner, result) => {
                 if let Some(v) = inner.borrow_mut().take() {
                     let r = tx.send(Dyn(*v));
-                    *result.borrow_mut() = Some(r.is_ok());
+                    result.borrow_mut().push(r.is_ok());
                 }
                 s.serialize_tuple(0)?.end()
             },
